@@ -165,6 +165,7 @@ pub struct World {
     pub write_idx: usize,
     pub default_write: WriteStep,
     pub write_calls: usize,
+    pub flush_calls: usize,
     pub accepted: Vec<u8>,
     /// First non-retryable write/closure error injected: (kind, accepted len at that time)
     pub fatal_write_err: Option<(std::io::ErrorKind, usize)>,
@@ -217,6 +218,7 @@ impl World {
             write_idx: 0,
             default_write: sc.default_write,
             write_calls: 0,
+            flush_calls: 0,
             accepted: Vec::new(),
             fatal_write_err: None,
             writes_after_fatal: 0,
@@ -518,7 +520,21 @@ impl io::Write for SimWriter {
     }
     fn flush(&mut self) -> io::Result<()> {
         let mut w = lock(&self.0);
+        let call = w.flush_calls;
+        w.flush_calls += 1;
         w.ev(Ev::Flush);
+        for i in 0..w.faults.len() {
+            if let Fault::Flush { call: c, kind } = w.faults[i] {
+                if c == call {
+                    w.fire(i);
+                    if !kind.is_interrupted() && w.fatal_write_err.is_none() {
+                        let len = w.accepted.len();
+                        w.fatal_write_err = Some((kind.to_io(), len));
+                    }
+                    return Err(kind.make("injected flush fault"));
+                }
+            }
+        }
         Ok(())
     }
 }
